@@ -290,17 +290,16 @@ func (x *LabelExec) Apply(op drv.Op) (handled bool, v *drv.Violation, err error)
 					if res.Wedged {
 						return true, nil, w.ClassifyWedge("first concurrent label reads after a restart", res.Stacks)
 					}
+					// judged against the same read repeated once everything has settled (not against the model, which
+					// the checks that crash operations re-synchronise only loosely)
+					st2, settled, e := w.HTTP("GET", x.base(best)+"/labels", pj)
+					if e != nil {
+						return true, nil, e
+					}
 					for _, rp := range res.Resps {
-						var got []uint64
-						if rp.Status != 200 || json.Unmarshal(rp.Body, &got) != nil || len(got) != len(want) {
-							return true, &drv.Violation{Prop: "C03", Oracle: "first-reads-after-restart", Sig: "first concurrent label reads after a restart fail",
-								Detail: fmt.Sprintf("GET %s/labels %s -> %d %s", x.base(best), pj, rp.Status, trunc(rp.Body))}, nil
-						}
-						for i := range want {
-							if got[i] != want[i] {
-								return true, &drv.Violation{Prop: "C03", Oracle: "first-reads-after-restart", Sig: "first concurrent label reads after a restart answer from a partly rebuilt mapping",
-									Detail: fmt.Sprintf("three clients GET %s/labels %s right after the %s restart; client %s is answered %v, the bodies are %v", x.base(best), pj, kind, rp.Client, got, want)}, nil
-							}
+						if rp.Status != st2 || string(rp.Body) != string(settled) {
+							return true, &drv.Violation{Prop: "C03", Oracle: "first-reads-after-restart", Sig: "first concurrent label reads after a restart answer from a partly rebuilt mapping",
+								Detail: fmt.Sprintf("three clients GET %s/labels %s right after the %s restart; client %s is answered %d %s, the same read once settled answers %d %s (model bodies %v)", x.base(best), pj, kind, rp.Client, rp.Status, trunc(rp.Body), st2, trunc(settled), want)}, nil
 						}
 					}
 					w.Stats.Probe("first-concurrent-reads-after-restart")
